@@ -38,8 +38,13 @@ Definition flow_take (sw cw n : Z) : option (Z * Z) :=
 (* ------------------------------------------------------------------ state *)
 Inductive side := Server | Client.
 
-(* side; does the client's SETTINGS processing broadcast (Gen h2_client_settings_wakes); writeData chunk size *)
-Record cfg := mkCfg { g_side : side; g_wakes : bool; g_chunk : Z }.
+(* side;
+   g_wakes      the client's SETTINGS processing ends with cond.Broadcast()   (Gen h2_client_settings_wakes);
+   g_wu_always  processWindowUpdate broadcasts after every successful add (true), or only when the updated flow's
+                available() was exactly 0 before the add (false)              (Gen h2_winupd_wakes_always);
+   g_validated  the client checks Setting.Valid() like the server             (Gen h2_client_settings_validated);
+   g_chunk      writeData chunk size                                          (Gen h2_write_chunk) *)
+Record cfg := mkCfg { g_side : side; g_wakes : bool; g_wu_always : bool; g_validated : bool; g_chunk : Z }.
 
 Record strm := mkS {
   s_id : Z;
@@ -131,6 +136,10 @@ Definition settings_wake (g : cfg) (c : conn) : conn :=
   | Client => if g_wakes g then broadcast c else c
   end.
 
+(* processWindowUpdate: cond.Broadcast() unconditionally, or only `if exhausted` *)
+Definition winupd_wake (g : cfg) (exhausted : bool) (c : conn) : conn :=
+  if g_wu_always g || exhausted then broadcast c else c.
+
 (* frames of the peer; after a connection error the read loop handles no further frame *)
 Definition is_peer_frame (e : event) : bool :=
   match e with EWinUpd _ _ | EWinUpdConn _ | ESetInit _ | ESetMaxFrame _ => true | _ => false end.
@@ -146,13 +155,15 @@ Definition step (g : cfg) (c : conn) (e : event) : conn * list frame :=
       match find_s sid (c_strs c) with
       | None => (c, [])                                     (* unknown stream: ignored, no broadcast *)
       | Some s =>
+          let exhausted := flow_available (s_win s) (c_win c) =? 0 in    (* fl.available() before the add *)
           let a := flow_add (s_win s) (wrap32 inc) in
-          if snd a then (broadcast (with_strs c (upd_s sid (set_win (fst a)) (c_strs c))), [])
+          if snd a then (winupd_wake g exhausted (with_strs c (upd_s sid (set_win (fst a)) (c_strs c))), [])
           else (set_err c, [])                              (* ConnectionError(ErrCodeFlowControl) *)
       end
   | EWinUpdConn inc =>
+      let exhausted := c_win c =? 0 in                      (* the connection flow has no parent: available() = n *)
       let a := flow_add (c_win c) (wrap32 inc) in
-      if snd a then (broadcast (with_win c (fst a)), []) else (set_err c, [])
+      if snd a then (winupd_wake g exhausted (with_win c (fst a)), []) else (set_err c, [])
   | ESetInit v =>
       if (v <? 0) || (i32_max <? v) then (set_err c, [])    (* Setting.Valid / `s.Val > math.MaxInt32` *)
       else
@@ -169,7 +180,8 @@ Definition step (g : cfg) (c : conn) (e : event) : conn * list frame :=
       match g_side g with
       | Server => if (v <? 16384) || (16777215 <? v) then (set_err c, [])   (* Setting.Valid *)
                   else (broadcast (with_mfs c v), [])
-      | Client => (settings_wake g (with_mfs c v), [])      (* not validated by MClientConn.processSettings *)
+      | Client => if g_validated g && ((v <? 16384) || (16777215 <? v)) then (set_err c, [])
+                  else (settings_wake g (with_mfs c v), []) (* unvalidated unless the source calls s.Valid() *)
       end
   | ESend sid =>
       match find_s sid (c_strs c) with
